@@ -249,6 +249,14 @@ class Index:
         try:
             return self.functions[key]
         except KeyError:
+            # a method that the class now inherits (a mix-in / base class took it over) is still the class's method
+            mod, _, qual = key.partition(":")
+            if "." in qual:
+                cname, mname = qual.rsplit(".", 1)
+                ci = self.classes.get(f"{mod}:{cname}")
+                m = self.method(ci, mname) if ci is not None else None
+                if m is not None:
+                    return m
             raise AnalysisError(f"anchor function {key} not found") from None
 
     def cls(self, key):
